@@ -160,10 +160,15 @@ class CacheView(Table):
 
             # serve the remainder from the inner iterator
             it = iter(self.inner)
-            for row in islice(it, len(self.cache), None):
-                # maybe there's more room in the cache?
-                if not self.n or len(self.cache) < self.n:
+            pos = len(self.cache)  # position of this iterator in the inner table
+            for row in islice(it, pos, None):
+                # maybe there's more room in the cache? N.B., only an iterator
+                # that is at the end of the cache may extend it, otherwise
+                # interleaved iterators would append the same rows twice
+                if (not self.n or len(self.cache) < self.n) \
+                        and len(self.cache) == pos:
                     self.cache.append(row)
+                pos += 1
                 yield row
 
             # does the cache contain a complete copy of the inner table?
